@@ -18,7 +18,7 @@ for mid in sorted(res):
     what = (meta.get('summary') or meta.get('needs') or '').replace('\n', ' ').replace('|', '/')
     if len(what) > 230:
         what = what[:227] + '...'
-    rows.append('| %s | %s | %s | %s | %s |' % (mid, ', '.join(meta.get('breaks') or []), what, '; '.join(caught) or '**none**',
+    rows.append('| %s | %s | %s | %s | %s |' % (mid, ', '.join(meta.get('breaks') or []), what, '; '.join(caught) or ('(harmless since fix %s, see fixed-D19)' % r['neutralised_by'] if r.get('neutralised_by') else '**none**'),
                                                   ', '.join(missed) or '-'))
 print('| seeded change | breaks | what it does / needs | caught by quick check (violation classes) | run and not caught by |')
 print('|---|---|---|---|---|')
